@@ -17,6 +17,7 @@ Core Lean only.
 -/
 import CoreDhcp.Model.System
 import CoreDhcp.Spec.Range
+import CoreDhcp.Spec.Prefix
 namespace CoreDhcp
 namespace Sys
 
@@ -106,6 +107,85 @@ def projOps (tr : List Step4) : List ROp := (projEvs tr).map opOfEv
 def projChoices : List Dg4 → List Step4 → List (Option Nat)
   | d :: ds, r :: tr => if r.ev.isSome then d.choice :: projChoices ds tr else projChoices ds tr
   | _, _ => []
+
+/-! ## DHCPv6: the records of `prefix` threaded through a history
+
+Same construction for `prefix` (`Elem6.pd`, `PState.handleMsg` of Model/Prefix.lean). Two things differ from DHCPv4:
+one message consumes a variable number of allocator choices, so the choices are one stream that the steps hand on
+(as in `PState.run`), and a datagram that does not reach `prefix` consumes none; the IA_PD options of the inner
+message as the library parses them (`msg.Options.IAPD()`, IAID and hints — outside the repository) are an input
+of the datagram next to its option list, as `mac` is in `Pkt6`. -/
+
+structure St6 where
+  pfx : Option PState
+deriving Repr, Inhabited
+
+/-- the chain template with its `.pd` element(s) set to `out` -/
+def inst6 (out : List PdAns) (chain : List Elem6) : List Elem6 :=
+  chain.map (fun e => match e with | .pd _ => .pd out | e => e)
+
+def pdPos (chain : List Elem6) : Nat := (chain.findIdx? isPd).getD 0
+
+/-- was `prefix` invoked for this datagram? -/
+def reached6 (template chain : List Elem6) (d : Pkt6) : Bool :=
+  match d.msg.bind stub6 with
+  | some r0 => (runChain (chain.map handle6) d 0 (some r0)).2.any (fun p => p.1 == pdPos template)
+  | none => false
+
+structure Dg6 where
+  now   : Int
+  src   : Addr
+  input : Option Pkt6
+  /-- `msg.Options.IAPD()` of the inner message as the handler normalises it (Model/Prefix.lean) -/
+  iapds : List IAPDReq
+deriving Repr
+
+structure Step6 where
+  st  : St6
+  out : Out6
+  /-- the plugin-level event (`PEv` of Spec/Prefix.lean) when `prefix` was reached -/
+  ev  : Option PEv
+  /-- the allocator choices left for the datagrams to come -/
+  cs  : List (Option Nat)
+deriving Repr
+
+/-- the client key `prefix` uses: the Client-ID of the inner message -/
+def clientOf (d : Pkt6) : Option ClientKey := d.msg.bind (fun m => Plug.lookup 1 m.opts)
+
+/-- what `Elem6.pd` carries of the answer of `PState.handleMsg` (`none`: no Client-ID, the handler hands no response on
+and `Sys.handle6` ends the chain whatever the element carries) -/
+def pdOut : Option (List IAPDResp) → List PdAns
+  | some rs => pdOf rs
+  | none => []
+
+def step6 (bound : Nat) (oob : Option Nat) (chain : List Elem6) (st : St6) (d : Dg6) (cs : List (Option Nat)) :
+    Option Step6 :=
+  match st.pfx, d.input with
+  | some ps, some pkt =>
+    match ps.handleMsg (clientOf pkt) d.iapds d.now cs with
+    | none => none
+    | some (ps', resp, cs') =>
+      let chain' := inst6 (pdOut resp) chain
+      if reached6 chain chain' pkt then
+        some ⟨⟨some ps'⟩, serve6 bound oob d.src chain' d.input, some ⟨clientOf pkt, d.iapds, d.now, d.now, resp⟩, cs'⟩
+      else some ⟨st, serve6 bound oob d.src chain' d.input, none, cs⟩
+  | _, _ => some ⟨st, serve6 bound oob d.src chain d.input, none, cs⟩
+
+def run6 (bound : Nat) (oob : Option Nat) (chain : List Elem6) :
+    St6 → List Dg6 → List (Option Nat) → Option (List Step6 × St6)
+  | st, [], _ => some ([], st)
+  | st, d :: ds, cs =>
+    match step6 bound oob chain st d cs with
+    | none => none
+    | some r => (run6 bound oob chain r.st ds r.cs).map (fun (tr, z) => (r :: tr, z))
+
+def projEvs6 (tr : List Step6) : List PEv := tr.filterMap (·.ev)
+def opOfEv6 (e : PEv) : POp := ⟨e.client, e.iapds, e.t0⟩
+/-- the messages that reached `prefix`, in order -/
+def projOps6 (tr : List Step6) : List POp := (projEvs6 tr).map opOfEv6
+
+/-- the message `prefix` would see of a datagram -/
+def opOfDg6 (d : Dg6) : POp := ⟨d.input.bind clientOf, d.iapds, d.now⟩
 
 end Sys
 end CoreDhcp
